@@ -78,7 +78,7 @@ def build_inputs(bt, spec, decoy=False):
         tree = spec["tree"]
         kids = [interp.mk_node(bt, c, spec, frames) for c in tree["children"]]
         algos = [interp.mk_algo(bt, a, spec, frames) for a in tree.get("algos", [])]
-        template = bt.core.Strategy(tree["name"], algos=algos, children=kids)
+        template = getattr(bt.core, tree.get("kind", "Strategy"))(tree["name"], algos=algos, children=kids)
         bt.core.Strategy("decoy", algos=[], children=kids)
     else:
         template = interp.mk_node(bt, spec["tree"], spec, frames)
@@ -114,7 +114,7 @@ def first_diff(a, b):
 def case_template(ctx, spec):
     bt = ctx.bt
     sched = spec["schedule"]
-    base = {k: v for k, v in spec.items() if k != "schedule"}
+    base = {k: v for k, v in spec.items() if k not in ("schedule", "family")}
     # reference: lone backtest of a fresh template
     t0, d0, a0, f0 = build_inputs(bt, base)
     interp.seed_rngs(base)
@@ -168,7 +168,7 @@ def case_template(ctx, spec):
             raise Violation("constructing/running backtests modified the input data frames", signature="c11:data-mutated")
     finally:
         interp.Probe.registry.pop("c11spy", None)
-    labs = gen.spec_labels(base)
+    labs = gen.spec_labels(base) + ["family=" + spec.get("family", "grammar")]
     stateful = any(l in labs for l in ("algo=RunOnce", "algo=RunAfterDays", "algo=RunEveryNPeriods", "algo=SelectRandomly", "algo=WeighRandomly", "algo=RebalanceOverTime"))
     if stateful:
         labs.append("stateful_or_rng")
@@ -177,7 +177,33 @@ def case_template(ctx, spec):
 
 @st.composite
 def template_spec(draw):
-    spec = draw(gen.backtest_spec(max_dates=12))
+    fam = draw(st.sampled_from(["grammar"] * 7 + ["fixed_income", "risk", "close", "roll", "vol"]))
+    if fam == "grammar":
+        spec = draw(gen.backtest_spec(max_dates=12))
+    elif fam == "fixed_income":
+        # coupon, holding-cost and notional frames
+        from . import c17
+
+        spec = draw(c17.run_spec())
+    elif fam == "risk":
+        from . import c20
+
+        spec = draw(c20.risk_spec(hedge=draw(st.booleans())))
+    elif fam == "close":
+        # tables indexed by security name (close / roll dates) are handed to the algos as they are
+        from . import c20
+
+        spec = draw(c20.close_spec())
+    elif fam == "roll":
+        from . import c20
+
+        spec = draw(c20.roll_spec())
+    else:
+        # target-weight frames handed to algos by value
+        from . import c04
+
+        spec = draw(c04.vol_spec())
+    spec["family"] = fam
     nodes = list(gen.walk_nodes(spec["tree"]))
     nodes[0][1]["algos"].insert(0, ["Probe", {"key": "c11spy", "run_always": True}])
     n = draw(st.integers(1, 3))
